@@ -125,6 +125,10 @@ func ReadEnvironment(data json.RawMessage) (Environment, error) {
 	env := NewBuilder().Build().(*environment)
 	envelope := env.toEnvelope()
 
+	// unmarshalling fills an existing struct in place, so give it a copy of the shared default number format
+	numberFormat := *envelope.NumberFormat
+	envelope.NumberFormat = &numberFormat
+
 	if err := utils.UnmarshalAndValidate(data, envelope); err != nil {
 		return nil, err
 	}
